@@ -86,6 +86,12 @@ def simpleEscapes : List (Char × Nat) := [
   ('\'', 0x27), ('"', 0x22), ('?', 0x3F), ('\\', 0x5C),
   ('a', 7), ('b', 8), ('f', 12), ('n', 10), ('r', 13), ('t', 9), ('v', 11)]
 
+/-- value of a hexadecimal-digit character (6.4.4.1: `0-9 a-f A-F`), by character code -/
+def hexDigitValue (b : Nat) : Nat :=
+  if 48 ≤ b ∧ b ≤ 57 then b - 48
+  else if 97 ≤ b ∧ b ≤ 102 then b - 87
+  else b - 55
+
 /-- octal-escape-sequence: one to three octal digits -/
 def octalEscape (ds : List Nat) : Nat := digitsValue 8 ds
 
@@ -169,6 +175,39 @@ def joinPrefix : List StrPrefix → Option StrPrefix
     | Option.none => Option.none
     | some q => if p = .none then some q else if q = .none then some p else if p = q then some p else Option.none
 
+-- ------------------------------------------------------------------ 5.1.1.2 translation phases 1 and 2
+
+/-- prepend a character to the first line -/
+def consLine {α : Type} (a : α) : List (List α) → List (List α)
+  | l :: ls => (a :: l) :: ls
+  | [] => [[a]]
+
+/-- physical source lines when CR LF, a lone CR and LF all end a line (phase 1: "end-of-line indicators");
+    the last element is the unterminated rest of the text -/
+def splitLines {α : Type} [DecidableEq α] (cr lf : α) : List α → List (List α)
+  | [] => [[]]
+  | [a] => if a = cr ∨ a = lf then [[], []] else [[a]]
+  | a :: b :: rest =>
+    if a = cr ∧ b = lf then [] :: splitLines cr lf rest
+    else if a = cr ∨ a = lf then [] :: splitLines cr lf (b :: rest)
+    else consLine a (splitLines cr lf (b :: rest))
+
+/-- lines when only `lf` ends a line -/
+def splitOn {α : Type} [DecidableEq α] (lf : α) : List α → List (List α)
+  | [] => [[]]
+  | a :: rest => if a = lf then [] :: splitOn lf rest else consLine a (splitOn lf rest)
+
+/-- phase 2: "each instance of a backslash character immediately followed by a new-line character is deleted" -/
+def unsplice {α : Type} [DecidableEq α] (bsl lf : α) : List α → List α
+  | [] => []
+  | [a] => [a]
+  | a :: b :: rest => if a = bsl ∧ b = lf then unsplice bsl lf rest else a :: unsplice bsl lf (b :: rest)
+
+/-- logical source lines up to blank lines: the first line exactly, the later lines without the empty ones -/
+def logicalLines {α : Type} [DecidableEq α] : List (List α) → List (List α)
+  | [] => []
+  | l :: ls => l :: ls.filter (· ≠ [])
+
 -- ------------------------------------------------------------------ Annex D identifier characters
 
 /-- D.1 ranges of characters allowed in identifiers -/
@@ -190,11 +229,12 @@ def annexD2 : List (Nat × Nat) := [(0x0300, 0x036F), (0x1DC0, 0x1DFF), (0x20D0,
 
 def inRanges (t : List (Nat × Nat)) (c : Nat) : Bool := t.any (fun r => r.1 ≤ c && c ≤ r.2)
 
-/-- identifier-nondigit of the basic character set (6.4.2.1), plus `$` (a common extension, J.5.2) -/
-def isBasicNondigit (c : Nat) : Bool :=
-  c = 0x5F || (0x61 ≤ c && c ≤ 0x7A) || (0x41 ≤ c && c ≤ 0x5A) || c = 0x24
+/-- identifier-nondigit of the basic character set (6.4.2.1: `_ a-z A-Z`), plus `$` (a common extension, J.5.2) -/
+def basicNondigit : List (Nat × Nat) := [(0x5F, 0x5F), (0x61, 0x7A), (0x41, 0x5A), (0x24, 0x24)]
 
-def isDigit (c : Nat) : Bool := 0x30 ≤ c && c ≤ 0x39
+def isBasicNondigit (c : Nat) : Bool := inRanges basicNondigit c
+
+def isDigit (c : Nat) : Bool := inRanges [(0x30, 0x39)] c
 
 /-- may start an identifier -/
 def identStart (c : Nat) : Bool := isBasicNondigit c || (inRanges annexD1 c && !inRanges annexD2 c)
